@@ -277,7 +277,7 @@ fn read_matrix(e: &mut Eng, thorough: bool) {
                             let mut ops = vec![];
                             if oi % 2 == 1 {
                                 let ca = if (klen + si) % 2 == 0 { vmgen::contract_a() } else { vmgen::contract_b() };
-                                ops.extend(essential_types::convert::word_4_from_u8_32(ca.0).map(PUSH));
+                                ops.extend(crate::model::word_4_from_u8_32(ca.0).map(PUSH));
                             }
                             for j in 0..klen {
                                 ops.push(PUSH(if j + 1 == klen && count == 7 { i64::MAX - 2 } else { j as i64 % 5 }));
@@ -321,16 +321,16 @@ fn access_matrix(e: &mut Eng, thorough: bool) {
                 let hashes: Vec<[u8; 32]> = model::predicate_exists_hashes(&base.solutions).into_iter().collect();
                 let mut ops = vec![THIS, THISC];
                 for h in &hashes {
-                    ops.extend(essential_types::convert::word_4_from_u8_32(*h).map(PUSH));
+                    ops.extend(crate::model::word_4_from_u8_32(*h).map(PUSH));
                     ops.push(PEX);
                     let mut h2 = *h;
                     h2[r.below(32)] ^= 1 << r.below(8);
-                    ops.extend(essential_types::convert::word_4_from_u8_32(h2).map(PUSH));
+                    ops.extend(crate::model::word_4_from_u8_32(h2).map(PUSH));
                     ops.push(PEX);
                 }
                 // also from within compute children (shared OnceLock)
                 ops.extend([PUSH(8), COM]);
-                ops.extend(essential_types::convert::word_4_from_u8_32(hashes[0]).map(PUSH));
+                ops.extend(crate::model::word_4_from_u8_32(hashes[0]).map(PUSH));
                 ops.extend([PEX, PUSH(1), ALOC, STO, COME]);
                 e.run(&single(&ops, &base), JudgeOpts { mapped: true, lockstep: true }, "access-matrix");
             }
